@@ -1124,14 +1124,14 @@ fn run(rep: &Report) {
     let cx = make_ctx();
     let quick = rep.tier == Tier::Quick;
     rep.set_rule(
-        "keys: from_seed([i;32]) for i<16 (quick) / i<64 (thorough) plus scalars {0,1,2,3,r-1,r-2,(r-1)/2,(r+1)/2}; \
+        "keys: from_seed([i;32]) for i<32 (quick) / i<64 (thorough) plus scalars {0,1,2,3,r-1,r-2,(r-1)/2,(r+1)/2}; \
          derivation: every path over indices {0,1,2,2^31-1,2^31,2^32-1} of length <=2 (quick) / <=3 (thorough) from every key, both routes at every step, plus the wallet paths 12381/8444/2[/idx]; \
          synthetic: every key x hidden hash in {derive_synthetic(), explicit default, 00.., ff.., [k;32] k=1..4 (thorough ..12)}; addition: every ordered pair of keys; \
          signing: every key x 6 messages (lengths 0,1,5,32,256,1000); pairing values: ordered pairs of 10 (quick) / all (thorough) non-zero keys; \
          byte strings: for the base encodings (G1: G, -G, 1/4 seed keys, 1/2 keys whose x+p still fits 381 bits; G2: generator, a signature, thorough also -generator and a second signature): all 8 flag combinations, \
          every single-byte substitution by all 256 values at every byte position (quick: G1 first base only, G2 first base at bytes 0-3,44-51,92-95; the other bases at bytes {0,1,47} (G2 also {48,95})), \
          non-reduced aliases x+kp, lengths n-1 / n+1; byte0 in 0..255 with the rest zero; one stray bit {01,80} at every position behind first byte {c0,e0,80,a0,40,00}; coordinates {0,1,p-2..p+2,2^381-1} (G2: all pairs); \
-         small x (G1 x<256 quick / <8192 thorough; G2 c1<4,c0<16 quick / c1<16,c0<128 thorough) with both sign flags; every public key / signature produced by the laws at depth <=1 (quick) / <=2 (thorough); \
+         small x (G1 x<2048 quick / <8192 thorough; G2 c1<8,c0<64 quick / c1<16,c0<128 thorough) with both sign flags; every public key / signature produced by the laws at depth <=1 (quick) / <=2 (thorough); \
          secret-key strings: boundaries around 0, r, 2r, 2^255, 2^256 and every single-byte substitution of {r-1, r, 0, 2 seed keys}, lengths 31/33; mod_by_group_order on boundaries and every single-byte substitution of {0, ff.., r, 2r, 2^255-1, 2^255, -r, -2r}. \
          distinct = distinct cases (family + full input); all cases are distinct by construction",
     );
@@ -1157,7 +1157,7 @@ fn run(rep: &Report) {
     }
 
     let mut problems = Vec::new();
-    let nseeds: u8 = rep.tier.pick(16, 64);
+    let nseeds: u8 = rep.tier.pick(32, 64);
     let keys = key_alphabet(&cx, nseeds, &mut problems);
     for p in problems {
         rep.violation("C16/seed/panic", json!({"kind":"seed"}), p);
@@ -1259,8 +1259,8 @@ fn run(rep: &Report) {
     }
     rep.extra("g1_base_encodings", json!(g1_bases.iter().map(|b| hx(b)).collect::<Vec<_>>()));
     rep.extra("g2_base_encodings", json!(g2_bases.len()));
-    let g1_small = rep.tier.pick((1u32, 256u32), (1, 8192));
-    let g2_small = rep.tier.pick((4u32, 16u32), (16, 128));
+    let g1_small = rep.tier.pick((1u32, 2048u32), (1, 8192));
+    let g2_small = rep.tier.pick((8u32, 64u32), (16, 128));
     // byte positions that get all 256 substitutions, per base encoding
     let g1_pos = |bi: usize| -> Vec<usize> {
         if !quick || bi == 0 { (0..48).collect() } else { vec![0, 1, 47] }
